@@ -202,7 +202,8 @@ def check_locations(ctx, fs, desc, path, res_lines, stats, stream="C17-loc"):
         w = []
         for ei, (lo, hi, ops2) in enumerate(elems):
             wops = [op_expected(o, uoff) for o in ops2]
-            w.append({"range": [(lo, hi)] if hi > lo else [], "length": len(ops2), "ops": wops, "pos": list(range(len(ops2))),
+            # an empty range: `address` is the empty set, of which the query's [low, high] capture is the empty list
+            w.append({"range": [(lo, hi)] if hi > lo else [()], "length": len(ops2), "ops": wops, "pos": list(range(len(ops2))),
                       # relem: the producer hands out the original index as the position
                       "relem": [(o[0], len(wops) - 1 - j) for j, o in enumerate(reversed(wops))], "epos": ei})
             stats["elems"] = stats.get("elems", 0) + 1
@@ -240,7 +241,7 @@ def run(ctx):
         for k in range(n):
             opts = {"max_units": 4}
             if "rich_ops" in forest._DEFAULTS:
-                opts.update({"rich_ops": 0.7, "loclists": 0.4 if k % 2 else 0.0, "implicit_consts": 0.6, "dup_attrs": 0.1 if k % 4 == 1 else 0.0})
+                opts.update({"rich_ops": 0.7, "loclists": 0.5 if k % 2 else 0.0, "empty_ranges": 0.3, "implicit_consts": 0.6, "dup_attrs": 0.1 if k % 4 == 1 else 0.0})
             desc, path = fs.make(rng, **opts)
             qs = [ABBREV_Q, UNIT_Q, DIE_Q, LOC_Q] + [q for _, q in LAWS]
             recs, crashes = fs.query(path, qs)
@@ -322,6 +323,8 @@ def run(ctx):
     nops, nelem, lists, opcodes = stats.get("ops", 0), stats.get("elems", 0), stats.get("lists", 0), stats.get("opcodes", {})
     ctx.cov["evaluations"] = nops + nabbr
     ctx.cov["distinct_nontrivial"] = len(opcodes)
+    if not ctx.replay:
+        ctx.sample({"location query": LOC_Q, "abbreviation tables of the last forest (library = file)": got[:1]})
     ctx.cov["forests"] = n
     ctx.cov["forests_fully_agreeing"] = ok
     ctx.cov["location_elements"] = nelem
